@@ -615,7 +615,7 @@ CHECKS["C12"] = {
     "engine": "pipex", "design_ref": "DESIGN.md section 3 C12",
     "technique": "explicit-state enumeration of all register/unregister/set_output/provide/release (and loop dispatch) sequences up to a depth over chains of two real pipes between a recording requester and two recording providers, in one thread and across a queue sink/source pair (also with its out-of-band queue full); routing and callback oracles after every step",
     "level_text": "Chains head -> P1 -> P2 -> {T0,T1} with (P1,P2) in idem/idem, skip/setflowdef, dup/idem, idem -> queue sink | queue source -> idem (mock loop, every dispatch order), ts_align (a bin pipe whose inner pipe every set_flow_def replaces: helper_bin_input / helper_bin_output) -> idem, auto_framer -> idem, and a filter written in the harness from the real output / flow-format / buffer-manager helper macros chained the documented way (control_ubuf_mgr before control_output, the layout of upipe_freetype) -> idem: that filter answers the flow_format and ubuf_mgr requests of its upstream itself, through its probes, exactly once and forwards nothing of them, while the two requests it issues itself on set_flow_def travel through its output helper; requests uref_mgr, uclock, sink_latency, flow_format, ubuf_mgr (sets of 2 or 3); every sequence up to the stated depth of register, unregister, P1.set_output(P2|NULL), P2.set_output(T0|T1|NULL), provide by a provider holding a request, pump dispatch, release of P2 / P1. After every step: the provider reachable through the outputs holds exactly one registration per request registered at the head and every other provider none (withdrawn on re-plumbing, re-issued to the new output, never twice); an answer given by a provider reaches the head callback exactly once with that value; the callback never fires while the request is not registered (including answers in flight in the queue); no provider is asked to unregister what it does not hold; at the end no proxy or message is left allocated. Environment deviation on the queue topology: one operation fills the out-of-band queue sink -> source (255 entries) with a burst of register / unregister of a throw-away request while the source is not dispatched, another dispatches until the loop is idle; a registration made while the queue is full must be refused with an error, and no answer may reach a requester that unregistered while it was full. Bounded, not a proof.",
-    "level_note": "Chain length 2 (+ queue); longer chains repeat the same helper. Requests that no provider holds are answered by the real uprobe_uref_mgr / uprobe_uclock / uprobe_ubuf_mem probes. The helper filter of topology 6 is harness code (the only module chaining the two helpers without intercepting flow-format requests first, upipe_freetype, needs the FreeType library); upipe_blit intercepts flow_format before the helper. Across the queue an answer given while a withdrawal of the same request is still travelling (or was lost) may rightly be dropped: the exact count is then only bounded from above. Known on the unchanged tree (known_findings.txt): an unregister made while the out-of-band queue is full is dropped, not deferred.",
+    "level_note": "Chain length 2 (+ queue); longer chains repeat the same helper. Requests that no provider holds are answered by the real uprobe_uref_mgr / uprobe_uclock / uprobe_ubuf_mem probes. The helper filter of topology 6 is harness code (the only module chaining the two helpers without intercepting flow-format requests first, upipe_freetype, needs the FreeType library); upipe_blit intercepts flow_format before the helper. Across the queue an answer given while a withdrawal of the same request is still travelling (or was lost) may rightly be dropped: the exact count is then only bounded from above. Known on the unchanged tree (known_findings.txt): an unregister made while the out-of-band queue is full is dropped, not deferred. Added later: operation P1.set_output(T1) (one non-NULL output replaced by another); topology 7, the real segment-source bin (helper_bin_output) after upipe_attach_uclock, whose own uclock request must be held exactly once by the provider its output reaches; --hwdef: providers decline, the ubuf_mgr request proposes a definition no memory-backed manager can serve and an application probe behind all the fixture's probes provides it (the request has to travel past uprobe_ubuf_mem).",
     "jobs": {"quick": _c12_jobs("quick"), "thorough": _c12_jobs("thorough")},
     "rule": "state = one operation history (no merging); non-trivial = histories in which a provider held a registration or the head callback fired",
     "bounds": {"quick": "6 topologies x pool depth {0,2}: all sequences of up to 6 operations with 2 request types; 3 request types up to depth 5, also with providers answering inside register, providers declining every request (the probes must then answer) and with a requester callback that withdraws and re-issues another request (mutating the request lists during re-plumbing); request set uref_mgr + flow_format + ubuf_mgr up to depth 5 on the 6 topologies (providers holding / declining; answering inside register on topologies 0 and 3); helper filter -> idem: uclock + flow_format + ubuf_mgr up to depth 5 (pool depth {0,2}, the three provider behaviours, the re-issuing callback), flow_format + ubuf_mgr up to depth 6; full out-of-band queue: register / unregister / provide / dispatch / fill / drain up to depth 6 from the plumbed state, head on P1 or on the queue sink, request sets uref_mgr + uclock and flow_format + ubuf_mgr",
@@ -687,7 +687,7 @@ CHECKS["C06"] = {
     "engine": "vsched", "design_ref": "DESIGN.md section 3 C06",
     "technique": "stateless preemption-bounded exploration of all interleavings of (L1) a producer thread owning the real queue sink and a consumer thread owning the real queue source, (L2) an application thread owning a real upipe_xfer pipe and the remote thread its manager is attached to, (L3) an application thread owning a real linear worker pipe (upipe_worker.c) built inside the script around a recording remote pipe and the remote thread, each thread with its own mock event loop over simulated descriptors; sequence/ordering, thread-confinement, deadlock and use-after-free (ASan) oracles per execution; plus (freeze) explicit-state enumeration of all set / freeze / thaw / need_upump_mgr sequences on the real per-thread event-loop probe over two real pthreads driven in strict alternation, against a reference model",
     "level_text": "Producer scripts over set_flow_def / input / flush / loop step / release on the real upipe_qsink, consumer loop on the real upipe_qsrc with a recording sink; queue lengths 1-3, with and without a producer event loop, with max_length 0/1. Every interleaving with at most k preemptions at each atomic operation and each descriptor read/write of the shared queue and refcounts, every dispatch order of ready pumps. Per execution: the consumer receives the flow definition before data and each buffer exactly once in order (nothing lost when the producer has a loop; after a definition change the new definition precedes the next buffer), source_end comes after the last buffer, no deadlock / livelock, every event of the queue sink is thrown in the producer thread and every event of the queue source and every entry into the consumer's sink happens in the consumer thread, nothing is used after free (ASan) and everything is released at the end. L2: application scripts over attach_upump_mgr / set_uri / set_output / loop step / release(xfer pipe) / release(xfer manager) on a real upipe_xfer pipe whose remote pipe is a harness pipe recording the thread of every entry and throwing an event (forwarded by the real uprobe_xfer) on every set_uri: the remote pipe sees exactly the scripted commands, once, in order, only from the remote thread, is released there; forwarded events are thrown by the xfer pipe in the application thread, at most once each; the xfer pipe and its manager die, nothing is used after free, no deadlock. L3: scripts over upipe_wlin_alloc / attach_upump_mgr / set_output / set_flow_def / input / loop step / release: buffers travel application -> in_qsink | in_qsrc -> remote pipe -> out_qsink | out_qsrc -> application sink and must arrive exactly once, in order, after the right definition, with nothing lost once both loops are idle; the remote pipe (and the transferred queue source) is only entered from the remote thread, the application's sink only from the application thread. Freeze (c06_freeze.c): every sequence up to the stated depth over {set(manager A | B | NULL), freeze, thaw, a pipe throws need_upump_mgr} x {thread 0, thread 1} on the real uprobe_pthread_upump_mgr (thread 1 is a real pthread executing on command; the probe's state is pthread-specific data); a recording probe in front of it is the model (per thread: manager set, freeze depth counted on every freeze / thaw event whoever throws it): need_upump_mgr is answered with the calling thread's manager iff one is set and the depth is 0, otherwise it reaches the next probe with the caller's pointer untouched; both threads are asked after every step; manager reference counts are 1 + the threads they are set on after every step and 1 after thread 1 has exited and the probe is released. With the worker alphabet (thread 0: set A/NULL, freeze, thaw, allocate a pipe for the worker (asks for a manager when allocated and when asked for its output), upipe_wsink_alloc around it with the real upipe_worker.c / upipe_transfer.c / queue pipes; thread 1: set B/NULL, freeze, thaw, need, run its loop) the allocator's own freeze / thaw and every need_upump_mgr of the inner pipes in either thread go through the same model: a pipe built inside the application's frozen section is never given a manager, whatever worker allocations precede it in that section; a deported pipe is only entered from thread 1, never holds manager A and is released in thread 1 once both loops are idle. The same alphabet in one thread on uprobe_upump_mgr.c against the same nesting model. Bounded, not a proof.",
-    "level_note": "Levels L1 (queue pair), L2 (transfer) and L3 (linear worker over a harness-attached xfer manager) of DESIGN section 3/C06, and the freeze / thaw machinery of the upump-manager probes (thaws balanced: an unbalanced thaw wraps the unsigned counter and is outside the alphabet; the sink worker is the one driven, the linear / source allocators share _upipe_work_alloc). upipe_pthread_transfer (real thread creation) and source workers are not explored; ThreadSanitizer is not run under the scheduler (coroutines); instead the 'no unsynchronised access' clause is additionally checked by a free-running ThreadSanitizer pass over the repository's transfer / worker (linear, source, sink) / pthread-upump-manager tests, which use real threads, real upump_ev loops and upipe_pthread_transfer (suppressions: engine/tsan.supp). Managers' internal atomics are not scheduling points (thread-safe services decided by C07/C09). Sequentially consistent interleavings.",
+    "level_note": "Levels L1 (queue pair), L2 (transfer) and L3 (linear worker over a harness-attached xfer manager) of DESIGN section 3/C06, and the freeze / thaw machinery of the upump-manager probes (thaws balanced: an unbalanced thaw wraps the unsigned counter and is outside the alphabet; the sink worker is the one driven, the linear / source allocators share _upipe_work_alloc). upipe_pthread_transfer (real thread creation) and source workers are not explored; ThreadSanitizer is not run under the scheduler (coroutines); instead the 'no unsynchronised access' clause is additionally checked by a free-running ThreadSanitizer pass over the repository's transfer / worker (linear, source, sink) / pthread-upump-manager tests, which use real threads, real upump_ev loops and upipe_pthread_transfer (suppressions: engine/tsan.supp). Managers' internal atomics are not scheduling points (thread-safe services decided by C07/C09). Sequentially consistent interleavings. Added later: c06_queue --preattach (the queue source first lives on an event loop of the application, then is attached to the consumer's: nothing of it may stay on the first loop); c06_freeze --binfreeze (counting mutex on the xfer manager; bin_freeze / forwarded set_option / bin_thaw: the lock is held exactly while the application keeps the worker bin frozen, the deported pipe is entered from the application thread only under it).",
     "jobs": {"quick": _c06_jobs("quick") + _free_jobs(FREE_TESTS[:6], []), "thorough": _c06_jobs("thorough") + _free_jobs(FREE_TESTS[:6], [])},
     "rule": "one execution = one complete schedule; states = scheduling points visited; non-trivial = executions in which the consumer's loop ran while the producer was still in its script; freeze: state = history (merged on model state + observed answers + reference counts unless stated), non-trivial = a thread is frozen with a manager set or a worker exists",
     "bounds": {"quick": "scripts fiir fiiir fiFir fiixir fillir x queue length 1-2, preemption bound 3; no-loop producer scripts bound 4; max_length 1; length 3 and fiFiir at bound 2; xfer scripts aurm aumr aulrm aoulrm amur at bound 3, auourm auulurm at bound 2 (command queue length 8); worker scripts waofiir waofiFir at bound 2, waofir wafoiir waoflilr at bound 1 (queue length 2); freeze: 12 operations, every history up to depth 8 (states merged on model + observations), depth 6 with the worker alphabet (at most 3 pipes, 2 workers), every history up to depth 4 without merging; non-threaded probe depth 8",
